@@ -160,6 +160,11 @@ pub fn install_panic_hook() {
     }));
 }
 
+/// Put a panic record back (for a caller that took it only to look at it).
+pub fn put_panic(loc: String, msg: String) {
+    LAST_PANIC.with(|p| *p.borrow_mut() = Some((loc, msg)));
+}
+
 pub fn take_panic() -> (String, String) {
     LAST_PANIC
         .with(|p| p.borrow_mut().take())
